@@ -686,6 +686,16 @@ func (w *c14World) project(routeKind string, r c15Resp, d *c14Desc) J {
 			out["b"] = J{"k": "success", "msg": msg}
 			return out
 		}
+		if len(x) == 4 {
+			name, ok1 := x["ServiceName"].(string)
+			version, ok2 := x["Version"].(string)
+			status, ok3 := x["Status"].(string)
+			_, ok4 := x["Time"].(string)
+			if ok1 && ok2 && ok3 && ok4 {
+				out["b"] = J{"k": "status", "name": c14S(name), "version": c14S(version), "status": c14S(status)}
+				return out
+			}
+		}
 		if am, has := x["ActiveManagementActions"]; has && len(x) == 1 {
 			m, ok := c14ActionMap(am)
 			if !ok {
@@ -1394,8 +1404,8 @@ func (g *c14Gen) step(e *c14Engine, malformed float64) c14Req {
 }
 
 // routeTriple: the same target set reached from the same prefix by the three write routes, on three engines
-// reservedPatch != "": the prefix also PATCHes that engine-maintained attribute name (the listed finding of C14: the
-// witness of C14_route_equivalence_full_refuted, replayed on the implementation)
+// reservedPatch != "": the prefix also PATCHes that engine-maintained attribute name (regression case: this used to make
+// the routes disagree; PATCH /model now refuses such names -- C14_regression_patched_planning_unit_name)
 func (g *c14Gen) routeTriple(i int, reservedPatch string) {
 	p := g.p
 	w := g.w
@@ -1449,9 +1459,6 @@ func (g *c14Gen) routeTriple(i int, reservedPatch string) {
 		emit(J{"kind": "oracle", "what": "routes-disagree", "shape": "route triple", "prefix_patch": reservedPatch,
 			"detail": "whole-table PUT, per-subcatchment PUTs and encoding PATCH reach action set " + c14BitKey(target) + " but GET /model differs between them",
 			"method": last.Method, "path": last.Path, "body": c14Short(last.Body), "models": bodies})
-	} else if reservedPatch != "" {
-		// the listed finding no longer reproduces: say so (the refutation witness must be replayed on every run)
-		emit(J{"kind": "note", "what": "listed finding did not reproduce", "prefix_patch": reservedPatch})
 	}
 }
 
@@ -1485,6 +1492,8 @@ func runC14(args []string) {
 	for i := 0; i < ntriple; i++ {
 		g.routeTriple(i, "")
 	}
-	g.routeTriple(ntriple, "ModelSuppliedPlanningUnitName")
+	for k, name := range []string{"ModelSuppliedPlanningUnitName", "ValidationErrors", "ParetoFrontMember", "ValidAgainstScenario"} {
+		g.routeTriple(ntriple+k, name)
+	}
 	w.finish()
 }
